@@ -453,3 +453,118 @@ Proof.
   - destruct x as [sx gx], y as [sy gy]; cbn [fst snd] in *.
     destruct (rest sx) eqn:E1, (rest sy) eqn:E2; try discriminate; exact IH.
 Qed.
+
+(* ---------------- named extension: s' is s after consuming exactly [mid] ---------------- *)
+Definition ext (s : st) (mid : list N) (s' : st) : Prop :=
+  pre s' = rev mid ++ pre s /\ rest s = mid ++ rest s' /\ idx s' = idx s + length mid.
+
+Lemma ext_extends s mid s' : ext s mid s' -> extends s s'.
+Proof. intros H. exists mid. exact H. Qed.
+
+Lemma ext_nil s : ext s [] s.
+Proof. unfold ext. cbn. repeat split; lia. Qed.
+
+Lemma ext_trans a m1 b m2 c : ext a m1 b -> ext b m2 c -> ext a (m1 ++ m2) c.
+Proof.
+  intros (P1 & R1 & I1) (P2 & R2 & I2). unfold ext.
+  rewrite P2, P1, R1, R2, I2, I1, rev_app_distr, app_length, <- !app_assoc. repeat split; lia.
+Qed.
+
+Lemma ext_slice s mid s' : wf_st s -> ext s mid s' -> slice (text_of s) (idx s) (idx s') = mid.
+Proof.
+  intros Hwf (P & R & I). unfold slice, text_of. rewrite R, I. unfold wf_st in Hwf. rewrite Hwf.
+  replace (length (pre s) + length mid - length (pre s)) with (length mid) by lia.
+  rewrite <- (rev_length (pre s)), skipn_app, skipn_all, Nat.sub_diag. cbn [skipn app].
+  rewrite firstn_app, firstn_all, Nat.sub_diag. cbn [firstn]. apply app_nil_r.
+Qed.
+
+Lemma ext_chr cs s g p : In p (ms (Chr cs) s g) -> exists c, in_ranges c cs = true /\ ext s [c] (fst p) /\ snd p = g.
+Proof.
+  intros H. apply in_ms_chr in H. destruct H as (c & t & R & Hc & ->). exists c. split; [exact Hc|]. split; [|reflexivity].
+  unfold ext. cbn. rewrite R. repeat split; lia.
+Qed.
+
+(* n passes through a single-character class consume n characters of the class and leave the captures alone *)
+Lemma chain_chr cs : forall n s g p, chain (Chr cs) n s g p ->
+  exists w, length w = n /\ Forall (fun c => in_ranges c cs = true) w /\ ext s w (fst p) /\ snd p = g.
+Proof.
+  intros n s g p H. induction H as [s g|n s g q p Hq Hc IH].
+  - exists []. repeat split; [constructor | apply ext_nil].
+  - destruct (ext_chr _ _ _ _ Hq) as (c & Hc1 & He & Hg). destruct IH as (w & Hl & Hf & He2 & Hg2).
+    exists (c :: w). split; [cbn; congruence|]. split; [constructor; assumption|]. split; [exact (ext_trans _ _ _ _ _ He He2) | congruence].
+Qed.
+
+(* ================================================================== *)
+(* Completeness: building paths (the converse of the inversion lemmas) *)
+
+Lemma first_some_exists {A B} (k : A -> option B) l x : In x l -> k x <> None -> first_some k l <> None.
+Proof.
+  induction l as [|y t IH]; cbn; [intros []|]. intros [->|Hin] Hk.
+  - destruct (k x); [discriminate | contradiction].
+  - destruct (k y); [discriminate | apply IH; assumption].
+Qed.
+
+Definition lastp_ok (lastp : option nat) (s : st) : Prop := match lastp with Some i => i < idx s | None => True end.
+
+Theorem in_ms_rep_intro mn mx b s g p n :
+  (forall s g q, In q (ms b s g) -> idx s < idx (fst q)) ->
+  chain b n s g p -> mn <= n -> match mx with Some x => n <= x | None => True end -> n < rep_fuel mn s ->
+  In p (ms (Rep mn mx b) s g).
+Proof.
+  intros Hstrict Hc Hmn Hmx Hfuel. cbn [ms].
+  assert (Hl : lastp_ok (@None nat) s) by exact I.
+  revert Hl Hfuel. replace n with (0 + n) in Hmn, Hmx by reflexivity.
+  revert Hmn Hmx. generalize (rep_fuel mn s) as fuel. generalize (@None nat) as lastp. generalize 0 as cnt.
+  induction Hc as [s g|n s g q p Hq Hc IH]; intros cnt lastp fuel Hmn Hmx Hl Hfuel.
+  - destruct fuel as [|f]; [lia|]. replace (cnt <? mn) with false by (symmetry; apply Nat.ltb_ge; lia).
+    destruct (more mx cnt && notstuck lastp s); [apply in_or_app; right|]; left; reflexivity.
+  - destruct fuel as [|f]; [lia|]. pose proof (Hstrict _ _ _ Hq) as Hlt.
+    destruct (cnt <? mn) eqn:Ec.
+    + apply in_flat_map. exists q. split; [exact Hq|].
+      apply IH; try lia; try (destruct mx; [lia | exact I]); try (unfold lastp_ok in *; destruct lastp; [lia | exact I]).
+    + replace (more mx cnt) with true by (destruct mx as [x|]; cbn; [symmetry; apply Nat.ltb_lt; lia | reflexivity]).
+      assert (Hns : notstuck lastp s = true).
+      { destruct lastp as [i|]; [|reflexivity]. unfold lastp_ok in Hl. cbn. apply negb_true_iff, Nat.eqb_neq. lia. }
+      rewrite Hns. cbn [andb]. apply in_or_app. left. apply in_flat_map. exists q. split; [exact Hq|].
+      apply IH; try lia; try (destruct mx; [lia | exact I]). unfold lastp_ok. exact Hlt.
+Qed.
+
+Lemma chr_strict cs s g q : In q (ms (Chr cs) s g) -> idx s < idx (fst q).
+Proof. intros H. destruct (ext_chr _ _ _ _ H) as (c & _ & (_ & _ & I) & _). rewrite I. cbn. lia. Qed.
+
+(* the state reached from s by consuming w *)
+Definition adv (s : st) (w : list N) : st := mkst (rev w ++ pre s) (skipn (length w) (rest s)) (idx s + length w).
+
+Lemma ext_adv s w r : rest s = w ++ r -> ext s w (adv s w).
+Proof.
+  intros H. unfold ext, adv. cbn. rewrite H, skipn_app, skipn_all, Nat.sub_diag. cbn. repeat split; reflexivity.
+Qed.
+
+Lemma adv_rest s w r : rest s = w ++ r -> rest (adv s w) = r.
+Proof. intros H. unfold adv. cbn. rewrite H, skipn_app, skipn_all, Nat.sub_diag. reflexivity. Qed.
+
+Lemma skipn_add {A} (l : list A) : forall a b, skipn a (skipn b l) = skipn (b + a) l.
+Proof.
+  intros a b. revert l. induction b as [|b IH]; intros l; [reflexivity|]. destruct l as [|x l]; cbn; [destruct a; reflexivity | apply IH].
+Qed.
+
+Lemma adv_app s w1 w2 : adv (adv s w1) w2 = adv s (w1 ++ w2).
+Proof.
+  unfold adv. cbn. rewrite rev_app_distr, app_length, <- app_assoc, skipn_add, Nat.add_assoc. reflexivity.
+Qed.
+
+Lemma in_ms_chr_adv cs s g c r : rest s = c :: r -> in_ranges c cs = true -> In (adv s [c], g) (ms (Chr cs) s g).
+Proof.
+  intros H Hc. apply in_ms_chr. exists c, r. split; [exact H|]. split; [exact Hc|].
+  unfold adv. cbn. rewrite H. cbn. f_equal. f_equal. lia.
+Qed.
+
+Lemma chain_chr_intro cs : forall w s g r,
+  rest s = w ++ r -> Forall (fun c => in_ranges c cs = true) w -> chain (Chr cs) (length w) s g (adv s w, g).
+Proof.
+  induction w as [|c w IH]; intros s g r Hr Hf.
+  - cbn. replace (adv s []) with s; [constructor|]. destruct s. unfold adv. cbn. f_equal. lia.
+  - inversion Hf as [|? ? Hc Hf']; subst. cbn [length]. eapply chainS; [apply (in_ms_chr_adv cs s g c (w ++ r)); [exact Hr | exact Hc]|].
+    cbn [fst snd]. replace (adv s (c :: w)) with (adv (adv s [c]) w) by (rewrite adv_app; reflexivity).
+    apply (IH _ _ r); [|exact Hf']. apply (adv_rest s [c]). exact Hr.
+Qed.
